@@ -26,6 +26,14 @@ pub fn parse_item(item: &Value) -> Value {
         let p = syntax::parse(&t2);
         let steps = syntax::verif::steps();
         syntax::verif::reset(u64::MAX);
+        // number of raw lexical tokens (a skipped conditional region is one tree token but many lexer tokens)
+        let mut nraw = 0u64;
+        {
+            let mut lx = Lexer::new(&t2);
+            while lx.eat() != syntax::token_kind::TokenKind::Eof {
+                nraw += 1;
+            }
+        }
         let node = p.syntax_node();
         let mut ts = Vec::new();
         let mut te = Vec::new();
@@ -69,7 +77,7 @@ pub fn parse_item(item: &Value) -> Value {
             .collect();
         let root_kind = format!("{:?}", node.kind());
         json!({
-            "len": t2.len(), "ntok": ts.len(), "nontrivia": nontrivia, "steps": steps,
+            "len": t2.len(), "ntok": ts.len(), "nontrivia": nontrivia, "steps": steps, "nraw": nraw,
             "ts": ts, "te": te, "tq": tq, "tb": tb, "tk": tk,
             "treeEq": tree_eq, "errs": errs, "root": root_kind,
             "lastb": t2.is_char_boundary(t2.len()),
